@@ -60,6 +60,41 @@ def http_get(port, target, timeout=10):
 
 VALID_URI_BYTES = set(b"abcdefghijklmnopqrstuvwxyzABCDEFGHIJKLMNOPQRSTUVWXYZ0123456789-._~:/?#[]@!$&'()*+,;=%")
 
+def alias_names(name):
+    """43-character strings that are NOT base-62 (they contain one character outside 0-9a-zA-Z) but would decode to the same
+    value as `name` if a decoder extended one of its three character ranges past its end (the characters after '9',
+    after 'z' or after 'Z' taken as further digits, the excess carried into the next position)"""
+    A = br.ALPHABET
+    out = []
+    digits = [A.index(c) for c in name]
+    for start_char, first_value in ((":", 10), ("{", 36), ("[", 62)):
+        for k in range(4):
+            c = chr(ord(start_char) + k)
+            v = first_value + k          # the value such a decoder would give this character
+            for i in range(42):
+                # digit i becomes v - 62*carry ... we need digits[i] + 62 * 1 == v + 62 * 0 is impossible for v < 62;
+                # general: v = digits[i] + 62 * borrow, with the next digit reduced by borrow
+                borrow, rest = divmod(v - digits[i], 62)
+                if rest != 0 or borrow < 0 or digits[i + 1] - borrow < 0:
+                    continue
+                if borrow == 0:
+                    continue
+                alias = list(name)
+                alias[i] = c
+                alias[i + 1] = A[digits[i + 1] - borrow]
+                out.append("".join(alias))
+                break
+    # same-value aliases without carry exist when a foreign character is given the value of the digit it replaces
+    for start_char, first_value in ((":", 10), ("{", 36)):
+        for k in range(6):
+            v = first_value + k
+            if v < 62 and v in digits:
+                i = digits.index(v)
+                alias = list(name)
+                alias[i] = chr(ord(start_char) + k)
+                out.append("".join(alias))
+    return out
+
 def hostile_targets(rng, cache_names, real_files):
     a = "A" * 43
     some = cache_names[0] if cache_names else a
@@ -74,6 +109,9 @@ def hostile_targets(rng, cache_names, real_files):
         "/rules/%s/%s" % (a, "short"), "/rules/%s/%s" % ("short", a), "/rules/%s/%s" % ("!" * 43, a), "/history/" + a, "/", "", "*",
         b"/files/\x00" + some.encode()[1:], b"/files/ " + some.encode()[1:], b"/files/\xff\xfe" + some.encode()[2:],
     ]
+    for n in cache_names[:6]:
+        for alias in alias_names(n)[:8]:
+            t.append("/files/" + alias)
     for p in list(real_files)[:3]:
         t.append("/files/" + p)
         t.append("/" + p)
